@@ -994,7 +994,6 @@ func (ex *vfc12Exec) handle(m *vfc12Msg) {
 	ex.stats["requests_delivered"]++
 	ex.stats["delivered_"+m.cmd.MethodName]++
 	ex.logf("n%d handles %s -> %q", m.to, m.name, res.ErrType)
-	orphan := m.fromGen != ex.nodes[m.from].gen
 	var r *vfc12Round
 	for _, x := range ex.rounds {
 		if x.name == fmt.Sprintf("n%d#%d", m.from, m.round) {
@@ -1032,7 +1031,6 @@ func (ex *vfc12Exec) handle(m *vfc12Msg) {
 			ex.stats["commits_refused_"+res.ErrType]++
 		}
 	}
-	_ = orphan
 }
 
 // reply writes the (real or error) result back to the proposer and waits until
